@@ -64,6 +64,11 @@ func DrawOpts(t *tape.Tape) Opts {
 	o.Chunked = t.Bool("o-chunked")
 	o.TopContainer = t.Chance("o-topcontainer", 3, 4)
 	o.ForwardRefs = o.TopContainer && t.Chance("o-forwardrefs", 1, 3)
+	if t.Chance("o-long-arrays", 1, 12) {
+		// strings and arrays of a few KB: longer than the codecs' initial
+		// buffers, so that buffers grow and refill in the middle of a document
+		o.MaxArray = 2600
+	}
 	return o
 }
 
